@@ -60,6 +60,14 @@ func yield(kind string) {
 	}
 }
 
+// YieldPoint is a scheduling point for instrumented call sites outside this package (no-op
+// without an installed scheduler).
+func YieldPoint(kind string) { yield(kind) }
+
+// AfterPackRelease, when set, is called right after internal/wire returned a pooled pack
+// state to its pool (only a world that wants other goroutines to run there sets it).
+var AfterPackRelease func()
+
 // OnRelease, when set, is called after a task released a shimmed lock exclusively held
 // (Mutex.Unlock, RWMutex.Unlock), still inside that task's turn: the harness can read the
 // state the critical section left behind before any other task runs.
